@@ -232,14 +232,20 @@ Record cfg := mkCfg {
   cf_dask_product_dedup : bool;
   (* SequentialMode.create_params builds its rows from get_parameters_item(processor): one parameter at a time,
      the others at their configured values (false: the value lists are zipped, DESIGN F12) *)
-  cf_dask_sequential_rows : bool
+  cf_dask_sequential_rows : bool;
+  (* Observation._get_parameter_types builds the key -> type dict of the CURRENT enabled steps on every run (false:
+     it updates the dict it keeps in Observation.parameter_types, so keys of an earlier run of the same Observation
+     object stay in it and take part in the naming and, on the dask path, in the pairing of keys and values) *)
+  cf_types_fresh : bool
 }.
 
 (* the tree the framework was built on (round 1) and the tree with the round-2 repairs *)
-Definition cfg_round1 : cfg := mkCfg false false false false false false false false.
+Definition cfg_round1 : cfg := mkCfg false false false false false false false false false.
 (* the round-2 repairs of C05; the two dask defects repaired under C07 are separate flags *)
-Definition cfg_repaired : cfg := mkCfg true true true true true true false false.
-Definition cfg_all_repaired : cfg := mkCfg true true true true true true true true.
+Definition cfg_repaired : cfg := mkCfg true true true true true true false false false.
+(* ... with the repairs of C07: the tree the second pass of round 2 started from (parameter_types accumulates) *)
+Definition cfg_stale_types : cfg := mkCfg true true true true true true true true false.
+Definition cfg_all_repaired : cfg := mkCfg true true true true true true true true true.
 
 (* ------------------------------------------------------------------------------------ dimension names *)
 
@@ -781,3 +787,219 @@ Definition mismatches (cf : cfg) (cs : list case) : list Z :=
   indices_where (fun c => negb (outcome_agree (c_dask c) (model_of cf c) (c_obs c))) cs 0%Z.
 Definition violations (cf : cfg) (cs : list case) : list Z :=
   indices_where (fun c => negb (spec_holds cf c)) cs 0%Z.
+
+(* ------------------------------------------------------------------------------------ histories on ONE object
+   The same Observation object (one parameter-mode object, one detector, one pipeline) is run, its configuration is
+   edited in place, and it is run again.  The only attribute the run path writes is Observation.parameter_types (the
+   translator fails closed on any other write, cached field or memoised helper): that dict is the hidden state `st`
+   of the object as coded. *)
+
+(* Observation._get_parameter_types: self.parameter_types.update({step.key: step.type}) over the enabled steps --
+   into the dict kept from the earlier runs, or into a new one *)
+Definition types_step (cf : cfg) (st : list (string * ptype)) (en : list param) : list (string * ptype) :=
+  fold_left (fun d p => dict_set (p_key p) (ptype_of p) d) en (if cf_types_fresh cf then [] else st).
+
+(* the non-dask path for a given `types` dict (its keys, in insertion order, are what gets a dimension name);
+   `observe` is this function for the dict a new Observation object builds *)
+Definition observe_gen (cf : cfg) (keys : list string) (types : list (string * ptype)) (m : omode) (ps : list param)
+           (slots : assignment) (table : list (list Z)) (range : option (nat * nat)) : option outcome :=
+  let en := enabled ps in
+  match m with
+  | Product =>
+      if existsb has_ph en then None else
+      match dim_names cf keys with
+      | None => None
+      | Some names =>
+          let runs := product_runs ps in
+          if forallb (fun r => let ds := product_dims names types (r_index r) (r_params r) in
+                               str_nodup (ds ++ reserved_dims)) runs
+          then option_map (mkOutcome (map (fun r => received slots (r_params r)) runs))
+                 (assemble (map (fun r => (product_label names types (r_index r) (r_params r),
+                                           data_of slots (r_params r))) runs))
+          else None
+      end
+  | Sequential =>
+      if existsb has_ph en then None else
+      match dim_names cf keys with
+      | None => None
+      | Some names =>
+          let runs := sequential_runs (default_of slots) ps in
+          if cf_custom_dims_distinct cf || all_eq_nat (flat_map (fun r => vec_lens (r_params r)) runs)
+          then option_map (mkOutcome (map (fun r => received slots (r_params r)) runs))
+                 (assemble (map (fun r => (custom_label names (hd 0 (r_index r)) (r_params r),
+                                           data_of slots (r_params r))) runs))
+          else None
+      end
+  | Custom =>
+      match custom_table cf table range with
+      | None => None
+      | Some rows =>
+          match custom_runs (length (hd [] rows)) rows ps with
+          | None => None
+          | Some runs =>
+              match dim_names cf keys with
+              | None => None
+              | Some names =>
+                  if cf_custom_dims_distinct cf || all_eq_nat (flat_map (fun r => vec_lens (r_params r)) runs)
+                  then option_map (mkOutcome (map (fun r => received slots (r_params r)) runs))
+                         (assemble (map (fun r => (custom_label names (hd 0 (r_index r)) (r_params r),
+                                                   data_of slots (r_params r))) runs))
+                  else None
+              end
+          end
+      end
+  end.
+
+(* the dask path when the keys of `types` are NOT the current keys in declaration order (only possible with a dict
+   kept from earlier runs): _run_pipelines_array_to_datatree refuses a different number of keys
+   (NotImplementedError) and otherwise pairs the keys IN THE ORDER OF `types` with the tuple of values that
+   create_params built in declaration order: dict(zip(dimension_names, params_tuple)); the coordinates of the cell
+   still carry the requested values *)
+Definition rezip (keys : list string) (c : assignment) : assignment := combine keys (map snd c).
+
+Definition dask_outcome_rz (slots : assignment) (keys : list string) (cells : list (label * assignment))
+  : option outcome :=
+  option_map (mkOutcome (map (fun c => received slots (rezip keys (snd c))) cells))
+             (assemble (map (fun c => (fst c, data_of slots (rezip keys (snd c)))) cells)).
+
+Definition observe_dask_gen (cf : cfg) (keys : list string) (m : omode) (ps : list param) (slots : assignment)
+           (table : list (list Z)) (range : option (nat * nat)) : option outcome :=
+  let en := enabled ps in
+  let skeys := unique (map p_key en) in
+  let steps := dask_steps en in
+  if negb (Nat.eqb (length keys) (length skeys)) then None else
+  match m with
+  | Product =>
+      if existsb has_ph en then None else
+      match dim_names cf keys with
+      | None => None
+      | Some names =>
+          let steps' := dask_product_steps cf steps in
+          if str_nodup (map (name_of names) skeys ++ reserved_dims)
+             && forallb (fun s => pvals_nodup (snd s)) steps'
+          then dask_outcome_rz slots keys (map (fun c => (dask_product_label names c, c))
+                                               (dask_product_cells sort_level steps'))
+          else None
+      end
+  | Sequential =>
+      if existsb has_ph en then None else
+      match dim_names cf keys with
+      | None => None
+      | Some names =>
+          if str_nodup (map (name_of names) skeys)
+          then dask_outcome_rz slots keys (map (fun nc => (dask_id_label names (fst nc) (snd nc), snd nc))
+                                               (enumerate_from 0 (dask_seq_cells cf (default_of slots) ps)))
+          else None
+      end
+  | Custom =>
+      match custom_table cf table range with
+      | None => None
+      | Some rows =>
+          let lo := match range with Some (lo, _) => lo | None => 0 end in
+          let ncols := length (hd [] rows) in
+          let c := count_ph en in
+          if Nat.eqb c 0 || negb (Nat.eqb c ncols) then None else
+          match dim_names cf keys with
+          | None => None
+          | Some names =>
+              if str_nodup (map (name_of names) skeys)
+                 && (cf_dask_custom_positional cf || Nat.eqb lo 0)
+                 && Nat.leb (sum_nat (map plen en)) ncols
+              then dask_outcome_rz slots keys (map (fun nr => (dask_id_label names (fst nr)
+                                                                  (dask_custom_row cf en (snd nr) 0),
+                                                                dask_custom_row cf en (snd nr) 0))
+                                                   (enumerate_from 0 rows))
+              else None
+          end
+      end
+  end.
+
+(* the declared configuration of the object: what its public attributes say *)
+Record conf := mkConf {
+  f_mode : omode; f_params : list param; f_slots : assignment;
+  f_table : list (list Z); f_range : option (nat * nat); f_dask : bool
+}.
+
+(* what a NEW object with this configuration does (the statement of every other theorem of C05 is about this) *)
+Definition observe_conf (cf : cfg) (c : conf) : option outcome :=
+  (if f_dask c then observe_dask else observe) cf (f_mode c) (f_params c) (f_slots c) (f_table c) (f_range c).
+
+(* what the object as coded does when its parameter_types dict is `st` *)
+Definition observe_conf_st (cf : cfg) (st : list (string * ptype)) (c : conf) : option outcome :=
+  let en := enabled (f_params c) in
+  let types := types_step cf st en in
+  let keys := map fst types in
+  if f_dask c
+  then (if list_eqb String.eqb keys (unique (map p_key en))
+        then observe_dask cf (f_mode c) (f_params c) (f_slots c) (f_table c) (f_range c)
+        else observe_dask_gen cf keys (f_mode c) (f_params c) (f_slots c) (f_table c) (f_range c))
+  else observe_gen cf keys types (f_mode c) (f_params c) (f_slots c) (f_table c) (f_range c).
+
+(* validate_steps comes first: a placeholder outside custom mode is refused before parameter_types is touched *)
+Definition types_next (cf : cfg) (st : list (string * ptype)) (c : conf) : list (string * ptype) :=
+  let en := enabled (f_params c) in
+  match f_mode c with
+  | Custom => types_step cf st en
+  | _ => if existsb has_ph en then st else types_step cf st en
+  end.
+
+(* edits of the configuration between two runs, through the public attributes: a configured value of the detector /
+   a model argument; the parameter list of the mode object (value lists, enabled flags, order, members); the custom
+   table / its columns; with_dask; the mode *)
+Inductive edit :=
+| ESlot (k : string) (v : pval)
+| EParams (ps : list param)
+| ETable (t : list (list Z)) (r : option (nat * nat))
+| EDask (b : bool)
+| EMode (m : omode).
+
+Inductive hop := HRun | HEdit (e : edit).
+
+Definition apply_edit (e : edit) (c : conf) : conf :=
+  match e with
+  | ESlot k v => mkConf (f_mode c) (f_params c) (override (f_slots c) k v) (f_table c) (f_range c) (f_dask c)
+  | EParams ps => mkConf (f_mode c) ps (f_slots c) (f_table c) (f_range c) (f_dask c)
+  | ETable t r => mkConf (f_mode c) (f_params c) (f_slots c) t r (f_dask c)
+  | EDask b => mkConf (f_mode c) (f_params c) (f_slots c) (f_table c) (f_range c) b
+  | EMode m => mkConf m (f_params c) (f_slots c) (f_table c) (f_range c) (f_dask c)
+  end.
+
+(* the object as coded over an op sequence: the outcome of every Run, in order *)
+Fixpoint hist_run (cf : cfg) (st : list (string * ptype)) (c : conf) (ops : list hop) : list (option outcome) :=
+  match ops with
+  | [] => []
+  | HRun :: r => observe_conf_st cf st c :: hist_run cf (types_next cf st c) c r
+  | HEdit e :: r => hist_run cf st (apply_edit e c) r
+  end.
+
+(* the configuration at the time of every Run *)
+Fixpoint run_confs (c : conf) (ops : list hop) : list conf :=
+  match ops with
+  | [] => []
+  | HRun :: r => c :: run_confs c r
+  | HEdit e :: r => run_confs (apply_edit e c) r
+  end.
+
+(* case files: a history is the list of its runs, each with the configuration at that time and what the
+   implementation did *)
+Definition conf_of_case (c : case) : conf :=
+  mkConf (c_mode c) (c_params c) (c_slots c) (c_table c) (c_range c) (c_dask c).
+
+Fixpoint hist_agree (cf : cfg) (st : list (string * ptype)) (cs : list case) : list bool :=
+  match cs with
+  | [] => []
+  | c :: r => outcome_agree (c_dask c) (observe_conf_st cf st (conf_of_case c)) (c_obs c)
+              :: hist_agree cf (types_next cf st (conf_of_case c)) r
+  end.
+
+(* (history number) * 100 + (run number) of every run where ... *)
+Fixpoint hist_indices (f : list case -> list bool) (hs : list (list case)) (h : Z) : list Z :=
+  match hs with
+  | [] => []
+  | cs :: t => indices_where (fun b : bool => negb b) (f cs) (h * 100)%Z ++ hist_indices f t (h + 1)%Z
+  end.
+
+(* ... the model of the object as coded and the implementation differ *)
+Definition hist_mismatches (cf : cfg) (hs : list (list case)) : list Z := hist_indices (hist_agree cf []) hs 0%Z.
+(* ... the implementation breaks the specification for the configuration AT THAT TIME *)
+Definition hist_violations (cf : cfg) (hs : list (list case)) : list Z := hist_indices (map (spec_holds cf)) hs 0%Z.
